@@ -13,7 +13,7 @@
    uuid contains no '|'); the uuid4 of a go_to row is a counter.  Errors: every exception of
    the Python ([IndexError], [NotImplementedError], [TypeError], [ValueError],
    pydantic [ValidationError], [KeyError]) is [Err ECrash]; [EFuel] and [EInternal] are
-   never produced on any input (ToRowsFacts: fuel_suffices, no_internal). *)
+   never produced on any input (RowIdFacts: to_rows_tmp_err, to_rows_err, remap_total). *)
 From Coq Require Import List NArith Bool String Ascii Arith.
 From RPFT Require Import Base.Sexp Base.PyStr Base.Result Gen.Tables.
 Import ListNotations.
